@@ -867,23 +867,98 @@ Section TokenLemmas.
     apply slice_content.
   Qed.
 
-  Lemma parse_plain lex : lex_ok lex = true -> parse_literal (Q :: lex ++ [Q]) = inl (MLit lex xsd_string).
+  (** both texts of [decide_literal_type] ([Gen.Consts.c08_dlt_from_suffix]) *)
+  Lemma dlt_both a ty :
+    decide_literal_type_old a = inl ty -> decide_literal_type_new a = inl ty -> decide_literal_type a = inl ty.
+  Proof. unfold decide_literal_type. destruct c08_dlt_from_suffix; auto. Qed.
+
+  Lemma parse_of_type lex suf ty :
+    ~ In Q lex -> decide_literal_type (Q :: lex ++ Q :: suf) = inl ty ->
+    parse_literal (Q :: lex ++ Q :: suf) = inl (MLit lex ty).
+  Proof. intros HQ H. unfold parse_literal. rewrite H, (content_of lex suf HQ). reflexivity. Qed.
+
+  (** the repaired text: what follows the last quote *)
+  Lemma slice_from_nat (s : str) n : (n <= List.length s)%nat -> slice_from s (Z.of_nat n) = skipn n s.
   Proof.
-    intros H. pose proof (not_in_Q_of lex H) as HQ. unfold parse_literal, decide_literal_type.
+    intros H. unfold slice_from, norm_idx, len. destruct (Z.ltb_spec (Z.of_nat n) 0); [lia|].
+    replace (Z.to_nat (Z.min (Z.of_nat n) (Z.of_nat (List.length s)))) with n by lia. reflexivity.
+  Qed.
+
+  Lemma suffix_after_last_quote pre suf :
+    ~ In Q suf ->
+    (if Z.geb (rfind (Str """") (pre ++ Q :: suf)) 0
+     then strip (slice_from (pre ++ Q :: suf) (rfind (Str """") (pre ++ Q :: suf) + 1)) else [])
+    = strip suf.
+  Proof.
+    intros HQ. change (Str """") with [Q]. rewrite (rfind_last Q pre suf HQ).
+    assert (Z.geb (Z.of_nat (List.length pre)) 0 = true) as -> by (apply Z.geb_le; lia).
+    replace (Z.of_nat (List.length pre) + 1)%Z with (Z.of_nat (List.length (pre ++ [Q])))
+      by (rewrite app_length; cbn [List.length]; lia).
+    replace (pre ++ Q :: suf) with ((pre ++ [Q]) ++ suf) by (rewrite <- app_assoc; reflexivity).
+    rewrite slice_from_nat by (rewrite (app_length (pre ++ [Q])); lia).
+    rewrite skipn_app_exact. reflexivity.
+  Qed.
+
+  Lemma strip_keeps_head c s : is_space c = false -> exists r, strip (c :: s) = c :: r.
+  Proof.
+    intros H. unfold strip. rewrite lstrip_head by exact H. unfold rstrip.
+    cbn [rev]. destruct (lstrip (rev s ++ [c])) as [|x l] eqn:E.
+    - exfalso. assert (In c (lstrip (rev s ++ [c]))) as Hin; [|rewrite E in Hin; exact Hin].
+      clear E. induction (rev s) as [|y ys IH]; cbn [app lstrip]; [rewrite H; left; reflexivity|].
+      destruct (is_space y); [exact IH | right; apply in_or_app; right; left; reflexivity].
+    - assert (Hlast : exists m, x :: l = m ++ [c]).
+      { clear H. revert x l E. induction (rev s) as [|y ys IH]; intros x l E; cbn [app lstrip] in E.
+        - destruct (is_space c); [discriminate|]. inversion E; subst. exists []. reflexivity.
+        - destruct (is_space y); [apply (IH x l E)|]. inversion E; subst. exists (x :: ys). reflexivity. }
+      destruct Hlast as [m ->]. rewrite rev_unit. eexists. reflexivity.
+  Qed.
+
+  Lemma dlt_plain_old lex : lex_ok lex = true -> decide_literal_type_old (Q :: lex ++ [Q]) = inl xsd_string.
+  Proof.
+    intros H. pose proof (not_in_Q_of lex H) as HQ. unfold decide_literal_type_old.
     change (Q :: lex ++ [Q]) with ((Q :: lex) ++ Q :: []) at 1.
     rewrite arroba_false by (intros []).
-    unfold contains. cbn [app]. rewrite (find_QHH_plain lex HQ (hats_of lex H)). cbn [negb].
-    rewrite (content_of lex [] HQ). reflexivity.
+    unfold contains. cbn [app]. rewrite (find_QHH_plain lex HQ (hats_of lex H)). reflexivity.
+  Qed.
+
+  Lemma dlt_plain_new lex : lex_ok lex = true -> decide_literal_type_new (Q :: lex ++ [Q]) = inl xsd_string.
+  Proof.
+    intros H. unfold decide_literal_type_new. cbv zeta.
+    change (Q :: lex ++ [Q]) with ((Q :: lex) ++ Q :: []).
+    rewrite (suffix_after_last_quote (Q :: lex) [] (fun x => x)).
+    rewrite arroba_false by (intros []). reflexivity.
+  Qed.
+
+  Lemma parse_plain lex : lex_ok lex = true -> parse_literal (Q :: lex ++ [Q]) = inl (MLit lex xsd_string).
+  Proof.
+    intros H. apply (parse_of_type lex []); [apply not_in_Q_of; exact H|].
+    apply dlt_both; [apply dlt_plain_old | apply dlt_plain_new]; exact H.
+  Qed.
+
+  Lemma dlt_lang_old lex tag :
+    no_char Q tag = true -> decide_literal_type_old (Q :: lex ++ Q :: Str "@" ++ tag) = inl rdf_langString.
+  Proof.
+    intros Ht. unfold decide_literal_type_old.
+    change (Q :: lex ++ Q :: Str "@" ++ tag) with ((Q :: lex) ++ Q :: ATSIGN :: tag).
+    rewrite arroba_true by (apply no_char_not_in; exact Ht). reflexivity.
+  Qed.
+
+  Lemma dlt_lang_new lex tag :
+    no_char Q tag = true -> decide_literal_type_new (Q :: lex ++ Q :: Str "@" ++ tag) = inl rdf_langString.
+  Proof.
+    intros Ht. unfold decide_literal_type_new. cbv zeta.
+    change (Q :: lex ++ Q :: Str "@" ++ tag) with ((Q :: lex) ++ Q :: ATSIGN :: tag).
+    rewrite (suffix_after_last_quote (Q :: lex) (ATSIGN :: tag))
+      by (intros [E|Hin]; [discriminate E | revert Hin; apply no_char_not_in; exact Ht]).
+    destruct (strip_keeps_head ATSIGN tag eq_refl) as [r ->]. reflexivity.
   Qed.
 
   Lemma parse_lang lex tag :
     lex_ok lex = true -> no_char Q tag = true ->
     parse_literal (Q :: lex ++ Q :: Str "@" ++ tag) = inl (MLit lex rdf_langString).
   Proof.
-    intros H Ht. pose proof (not_in_Q_of lex H) as HQ. unfold parse_literal, decide_literal_type.
-    change (Q :: lex ++ Q :: Str "@" ++ tag) with ((Q :: lex) ++ Q :: ATSIGN :: tag) at 1.
-    rewrite arroba_true by (apply no_char_not_in; exact Ht).
-    change (Str "@" ++ tag) with (ATSIGN :: tag). rewrite (content_of lex (ATSIGN :: tag) HQ). reflexivity.
+    intros H Ht. apply (parse_of_type lex (Str "@" ++ tag)); [apply not_in_Q_of; exact H|].
+    apply dlt_both; [apply dlt_lang_old | apply dlt_lang_new]; exact Ht.
   Qed.
 
   Lemma typed_token_shape lex dt :
@@ -891,9 +966,17 @@ Section TokenLemmas.
     = (Q :: lex ++ [Q; HAT; HAT; ascii_of_nat 60]) ++ dt ++ [ascii_of_nat 62].
   Proof. cbn [app]. rewrite <- app_assoc. reflexivity. Qed.
 
-  Lemma parse_typed lex dt :
+  Lemma typed_suffix_no_Q dt : no_char Q dt = true -> ~ In Q (Str "^^<" ++ dt ++ Str ">").
+  Proof.
+    intros HdQ Hin. cbn [Str list_ascii_of_string app] in Hin.
+    destruct Hin as [E|[E|[E|Hin]]]; try discriminate E.
+    apply in_app_or in Hin. destruct Hin as [Hin|[E|[]]]; [|discriminate E].
+    revert Hin. apply no_char_not_in. exact HdQ.
+  Qed.
+
+  Lemma dlt_typed_old lex dt :
     lex_ok lex = true -> dt_ok lex dt = true ->
-    parse_literal (Q :: lex ++ Q :: Str "^^<" ++ dt ++ Str ">") = inl (MLit lex dt).
+    decide_literal_type_old (Q :: lex ++ Q :: Str "^^<" ++ dt ++ Str ">") = inl dt.
   Proof.
     intros H Hd. pose proof (not_in_Q_of lex H) as HQ.
     unfold dt_ok in Hd. rewrite !andb_true_iff in Hd.
@@ -902,15 +985,11 @@ Section TokenLemmas.
     set (tok := Q :: lex ++ Q :: Str "^^<" ++ dt ++ Str ">") in *.
     assert (Harr : there_is_arroba_after_last_quotes tok = false).
     { unfold tok. change (Q :: lex ++ Q :: Str "^^<" ++ dt ++ Str ">") with ((Q :: lex) ++ Q :: (Str "^^<" ++ dt ++ Str ">")).
-      apply arroba_false.
-      - intros Hin. cbn [Str list_ascii_of_string app] in Hin.
-        destruct Hin as [E|[E|[E|Hin]]]; try discriminate E.
-        apply in_app_or in Hin. destruct Hin as [Hin|[E|[]]]; [|discriminate E].
-        revert Hin. apply no_char_not_in. exact HdQ.
-      - intros Hin. cbn [Str list_ascii_of_string app] in Hin.
-        destruct Hin as [E|[E|[E|Hin]]]; try discriminate E.
-        apply in_app_or in Hin. destruct Hin as [Hin|[E|[]]]; [|discriminate E].
-        revert Hin. apply no_char_not_in. exact HdA. }
+      apply arroba_false; [apply typed_suffix_no_Q; exact HdQ|].
+      intros Hin. cbn [Str list_ascii_of_string app] in Hin.
+      destruct Hin as [E|[E|[E|Hin]]]; try discriminate E.
+      apply in_app_or in Hin. destruct Hin as [Hin|[E|[]]]; [|discriminate E].
+      revert Hin. apply no_char_not_in. exact HdA. }
     assert (Hfind : find_nat QHH tok = Some (S (List.length lex))).
     { unfold tok. cbn [Str list_ascii_of_string app]. apply find_QHH_typed; [exact HQ | apply hats_of; exact H]. }
     assert (Hslice : slice tok (find QHH tok + 4) (-1) = dt).
@@ -923,12 +1002,35 @@ Section TokenLemmas.
       { apply (strip_ends tok Q (ascii_of_nat 62)); [reflexivity | | reflexivity | reflexivity].
         unfold tok. rewrite typed_token_shape, app_assoc, rev_unit. reflexivity. }
       unfold tok. rewrite typed_token_shape, app_assoc. apply suffixb_snoc. }
-    unfold parse_literal, decide_literal_type. rewrite Harr.
+    unfold decide_literal_type_old. rewrite Harr.
     unfold contains at 1. rewrite Hfind. cbn [negb]. rewrite Hx, Hr, Hdt, Hg, Hslice, Hstrip.
-    assert (Hc : slice tok 1 (find_from1 (Str """") tok) = lex) by (unfold tok; apply content_of; exact HQ).
-    rewrite Hc.
     destruct (contains c_XSD_NAMESPACE tok || contains c_RDF_SYNTAX_NAMESPACE tok
               || contains c_DT_NAMESPACE tok || contains c_OPENGIS_NAMESPACE tok); reflexivity.
+  Qed.
+
+  (** the repaired text needs neither the four substring conditions nor "no at-sign in the datatype" *)
+  Lemma dlt_typed_new lex dt :
+    no_char Q dt = true -> decide_literal_type_new (Q :: lex ++ Q :: Str "^^<" ++ dt ++ Str ">") = inl dt.
+  Proof.
+    intros HdQ. unfold decide_literal_type_new. cbv zeta.
+    change (Q :: lex ++ Q :: Str "^^<" ++ dt ++ Str ">") with ((Q :: lex) ++ Q :: (Str "^^<" ++ dt ++ Str ">")).
+    rewrite (suffix_after_last_quote (Q :: lex) _ (typed_suffix_no_Q dt HdQ)).
+    assert (strip (Str "^^<" ++ dt ++ Str ">") = Str "^^<" ++ dt ++ Str ">") as ->.
+    { apply (strip_ends _ HAT (ascii_of_nat 62)); [reflexivity | | reflexivity | reflexivity].
+      change (Str "^^<" ++ dt ++ Str ">") with ((Str "^^<" ++ dt) ++ [ascii_of_nat 62]). rewrite rev_unit. reflexivity. }
+    assert (slice_from (Str "^^<" ++ dt ++ Str ">") 2 = Str "<" ++ dt ++ Str ">") as ->.
+    { change 2%Z with (Z.of_nat 2). rewrite slice_from_nat by (cbn; lia). reflexivity. }
+    assert (suffixb (Str ">") (Str "<" ++ dt ++ Str ">") = true) as -> by (rewrite app_assoc; apply suffixb_snoc).
+    rewrite slice_corners. reflexivity.
+  Qed.
+
+  Lemma parse_typed lex dt :
+    lex_ok lex = true -> dt_ok lex dt = true ->
+    parse_literal (Q :: lex ++ Q :: Str "^^<" ++ dt ++ Str ">") = inl (MLit lex dt).
+  Proof.
+    intros H Hd. apply (parse_of_type lex (Str "^^<" ++ dt ++ Str ">")); [apply not_in_Q_of; exact H|].
+    apply dlt_both; [apply dlt_typed_old; assumption|]. apply dlt_typed_new.
+    unfold dt_ok in Hd. rewrite !andb_true_iff in Hd. tauto.
   Qed.
 
   Lemma tune_token_obj o : obj_ok o = true -> tune_token pyfloat c08_tsv_object_untyped_numbers (r_obj o) = inl (mobj o).
